@@ -139,12 +139,14 @@ class FakeSock:
         self.inq = gevent.queue.Queue()
         self.closed = False
         self.broken = False  # reset by the peer: writes fail from now on
+        self.server_seen = False  # handle_client has started for this connection
         self.eof_sent = False
-        self.outstanding = None  # (rpc, args) of the request awaiting a response
+        self.outstanding = []  # FIFO of (rpc, args) awaiting their responses (more than one: pipelined)
         self.reply_cb = None
         self.greenlet = None
 
     def makefile(self, mode="rw"):
+        self.server_seen = True
         return FakeFile(self)
 
     def close(self):
@@ -199,7 +201,21 @@ class QsSim:
         self.clock.mono += PHASE
 
     # ---- seams -----------------------------------------------------------------
+    _guard = None
+
     def _install(self):
+        if QsSim._guard is None:
+            from .stateguard import StateGuard
+            mods = [jobs, misc, qserve, rpcserver]
+            try:
+                from mwlib.core import nserve
+                from qs import rpcclient
+                mods += [nserve, rpcclient]
+            except Exception:  # noqa: BLE001
+                pass
+            QsSim._guard = StateGuard(mods)
+        self.leaked_state = QsSim._guard.restore()  # containers a previous run left modified
+
         # `random` is an optional seam: an implementation that picks the blocked worker
         # deterministically does not import it
         self._saved = (jobs.time, getattr(jobs, "random", None), misc.gevent)
@@ -331,8 +347,7 @@ class QsSim:
     def _on_response(self, sock, data):
         if self.stopping:
             return
-        req = sock.outstanding
-        sock.outstanding = None
+        req = sock.outstanding.pop(0) if sock.outstanding else None
         self._stamp("resp", sock.name, data)
         if req is None:
             self.hub_errors.append(("HarnessError", f"response without request on {sock.name}: {data[:80]}"))
@@ -404,8 +419,11 @@ class QsSim:
         s = self.conns.get(name)
         return s is not None and not s.eof_sent and s.epoch == self.epoch
 
-    def can_send(self, name):
-        return self.is_live(name) and self.conns[name].outstanding is None
+    def can_send(self, name, pipelined=False):
+        if not self.is_live(name):
+            return False
+        n = len(self.conns[name].outstanding)
+        return n == 0 or (pipelined and n < 3)
 
     def connect(self, name):
         if self.is_live(name):
@@ -445,11 +463,11 @@ class QsSim:
         sock.inq.put(ConnectionResetError(104, "Connection reset by peer (injected)"))
         return True
 
-    def send(self, name, rpc, args):
-        if not self.can_send(name):
+    def send(self, name, rpc, args, pipelined=False):
+        if not self.can_send(name, pipelined):
             return False
         sock = self.conns[name]
-        sock.outstanding = (rpc, args)
+        sock.outstanding.append((rpc, args))
         line = json.dumps((rpc, args)) + "\n"
         self._stamp("send", sock.name, line)
         sock.inq.put(line)
